@@ -278,7 +278,11 @@ fn comp_matches(c: &Comp, leaf: &Value) -> bool {
     match (c, leaf) {
         (Comp::Text(s), Value::String(l)) => s == l,
         (Comp::Slashed(s), Value::String(l)) => l == s || l.strip_prefix('/') == Some(s.as_str()),
-        (Comp::Num(s), Value::Number(_)) => DecStr::parse(s).is_some() && DecStr::from_json_number(leaf) == DecStr::parse(s),
+        (Comp::Num(s), Value::Number(n)) => {
+            // the sign is carried by a separate written flag (37H `N`): compare magnitudes
+            let t = n.to_string();
+            DecStr::parse(s).is_some() && DecStr::from_float_text(t.trim_start_matches('-')) == DecStr::parse(s)
+        }
         (Comp::Num(s), Value::String(l)) => s == l || (DecStr::parse(l).is_some() && DecStr::parse(l) == DecStr::parse(s)),
         (Comp::Date6(s), Value::String(l)) => {
             if l == s {
@@ -289,6 +293,7 @@ fn comp_matches(c: &Comp, leaf: &Value) -> bool {
             l.len() == 10 && b[4] == b'-' && b[7] == b'-' && l[2..4] == s[0..2] && l[5..7] == s[2..4] && l[8..10] == s[4..6]
         }
         (Comp::Time4(s), Value::String(l)) => l == s || (l.len() >= 5 && l[0..2] == s[0..2] && &l[2..3] == ":" && l[3..5] == s[2..4]),
+        (Comp::Numbered(n, s), Value::String(l)) => l == s || *l == format!("{n}/{s}"),
         (Comp::Flag(s), Value::String(l)) => s == l,
         (Comp::Flag(_), Value::Bool(b)) => *b,
         _ => false,
